@@ -17,7 +17,7 @@ func init() {
 		Title: "BEP 42 node-ID security is computed exactly as specified",
 		Decided: "C17.1 writer/reader agreement: SecureNodeId writes and NodeIdSecure compares exactly the (byte, mask, CRC shift) triples {(0,0xff,24),(1,0xff,16),(2,0xf8,8)} = 21 bits; the writer keeps id[2]&7 and stores to no other byte; " +
 			"C17.2 same CRC input on both sides: crcIP(ip, id[19]); in crcIP the IPv4 form is chosen by To4() ≠ nil, the address is masked with the BEP 42 constants (03 0f 3f ff / 01 03 07 0f 1f 3f 7f ff), the seed is rand&7 shifted into the top three bits of byte 0, and CRC32-C (Castagnoli) runs over exactly the masked prefix ip[:len(mask)]; " +
-			"C17.3 exemption and self-securing: NodeIdSecure returns true for local addresses before any comparison; the exemption covers 10/8, 172.16/12, 192.168/16, link-local and loopback; InitNodeId secures a freshly generated ID whenever a public IP is configured and (the ID is derived from the listen address, or security is not disabled); MakeDeterministicNodeID secures with the IP of the address it hashed.",
+			"C17.3 exemption and self-securing: NodeIdSecure returns true for local addresses before any comparison; the exemption covers 10/8, 172.16/12, 192.168/16, link-local and loopback and nothing else (every true answer of isLocalNetwork carries one of them as a positive fact); InitNodeId secures a freshly generated ID whenever a public IP is configured and (the ID is derived from the listen address, or security is not disabled); MakeDeterministicNodeID secures with the IP of the address it hashed.",
 		NotDecided: "CRC32-C values and exhaustive agreement with an independent BEP 42 implementation over all addresses (value level); idempotence as a statement about all inputs (it follows from C17.1: the CRC input excludes the bits written).",
 		Assume:     []string{"hash/crc32 implements CRC32-C for the Castagnoli table"},
 		Rules: []*Rule{
@@ -388,6 +388,33 @@ func c17r3(w *World, rr *RuleRun) {
 		if !alt.Has("b", false, func(x *Term) bool { return x.Op == OpCall && suffixName(x) == "IsLoopback" }) {
 			okLB = false
 		}
+	}
+	// ... and nothing else is exempted: every way isLocalNetwork answers true carries one of the
+	// BEP 42 exemptions as a positive fact
+	loopForm := w.netsLoopForm(iln, []string{"classA", "classB", "classC"})
+	tsum := w.FE.Summary(iln, 0, "true", 0)
+	if len(tsum) == 0 {
+		rr.Oblige(shortFuncName(iln), "local ⇒ one of the BEP 42 exemptions (10/8, 172.16/12, 192.168/16, link-local, loopback)", w.P.Pos(iln.Pos()), false, "no true-class summary")
+	}
+	for i, alt := range tsum {
+		okOnly := alt.Has("b", true, func(x *Term) bool {
+			if x.Op == OpCall && (suffixName(x) == "IsLinkLocalUnicast" || suffixName(x) == "IsLoopback") {
+				return true
+			}
+			if x.Op == OpCall && suffixName(x) == "Contains" && len(x.Args) > 0 {
+				r := x.Args[0].String()
+				return loopForm || strings.Contains(r, "classA") || strings.Contains(r, "classB") || strings.Contains(r, "classC")
+			}
+			if x.Op == OpBin && x.Name == "==" {
+				for k := 0; k < 2; k++ {
+					if v, ok := constOf(x.Args[k]); ok && (v == 10 || v == 172 || v == 192) && x.Args[1-k].Op == OpIndex && x.Args[1-k].Args[1].IsConst("0") {
+						return true
+					}
+				}
+			}
+			return false
+		})
+		rr.Oblige(shortFuncName(iln), fmt.Sprintf("local case %d ⇒ one of the BEP 42 exemptions (10/8, 172.16/12, 192.168/16, link-local, loopback)", i+1), w.P.Pos(iln.Pos()), okOnly, "{"+trunc(strings.Join(alt.Facts(), " ∧ "), 260)+"}")
 	}
 	rr.Oblige(shortFuncName(iln), "not-local ⇒ not link-local", w.P.Pos(iln.Pos()), okLL, "")
 	rr.Oblige(shortFuncName(iln), "not-local ⇒ not loopback", w.P.Pos(iln.Pos()), okLB, "")
